@@ -45,7 +45,7 @@ BUDGET = {"quick": (16, 40), "thorough": (16, 1200)}
 def strategy(tier, phase):
     from hypothesis import strategies as st
 
-    t = st.fixed_dictionaries({"kind": st.sampled_from([0, 0, 1, 1, 2, 3, 4]), "size": st.sampled_from([8, 24, 100, 300, 0]), "seed": st.integers(0, 255)})
+    t = st.fixed_dictionaries({"kind": st.sampled_from([0, 0, 1, 1, 2, 3, 4, 0, 0, 1, 1, 2, 3, 4, 0, 1, 5]), "size": st.sampled_from([8, 24, 100, 300, 0]), "seed": st.integers(0, 255)})
     return st.fixed_dictionaries({
         "tensors": st.lists(t, min_size=1, max_size=4), "pre": st.integers(0, 3), "shard": st.sampled_from([None, None, None, 64, 200]),
         "workers": st.sampled_from([None, None, 1, 2]), "threshold": st.sampled_from([0, 0, 16]), "callback": st.booleans(),
@@ -129,6 +129,14 @@ def setup(case, wd, inj_ref):
                 f.write(data)
                 f.write(b"\x77" * 3)
             t = ir.ExternalTensor(dest_rel, off_, len(data), ir.DataType.UINT8, shape=ir.Shape([len(data)]), name=f"w{i}", base_dir=twin_dir)
+        elif kind == 5:
+            # an external tensor whose file cannot even be stat'ed: a path component is a regular file (ENOTDIR).  The save
+            # cannot succeed; it must fail cleanly
+            plain = os.path.join(wd, "plain.bin")
+            if not os.path.exists(plain):
+                with open(plain, "wb") as f:
+                    f.write(b"PLAIN-FILE")
+            t = ir.ExternalTensor("plain.bin/inner.bin", 0, len(data), ir.DataType.UINT8, shape=ir.Shape([len(data)]), name=f"w{i}", base_dir=wd)
         elif kind == 3:
             inner = ir.Tensor(arr, name=f"w{i}")
             t = ir.LazyTensor(lambda inner=inner: inner, ir.DataType.UINT8, ir.Shape([len(data)]), name=f"w{i}")
@@ -228,8 +236,13 @@ def execute(case):
         pre_files = {k: v for k, v in before.items() if v is not None}
         if ref_exc is not None:
             classes.add(f"reference_raised_{type(ref_exc).__name__}")
-            if not isinstance(ref_exc, FileExistsError):
+            unreadable = any(sp["kind"] == 5 for sp in case["tensors"])
+            if not isinstance(ref_exc, FileExistsError) and not (unreadable and isinstance(ref_exc, (OSError, ValueError))):
                 fails.append((f"uninjected-save-raised/{type(ref_exc).__name__}", f"save without any fault raised {type(ref_exc).__name__}: {ref_exc}"[:300]))
+            # (single-file saves only: a failed sharded save may leave completed shard files, which the statement does not cover)
+            leftovers = sorted(set(after_ok) - set(before)) if case["shard"] is None else []
+            if leftovers:
+                fails.append((f"temporary-left-behind/failed-save/{type(ref_exc).__name__}", f"save raised {type(ref_exc).__name__} and left {leftovers} behind"))
             # a refused sharded save must not have touched anything
             for k, v in pre_files.items():
                 if after_ok.get(k) != v:
